@@ -456,6 +456,19 @@ func genLimits(g *core.Gen, r *core.Rand, keys []keyT) []caseSpec {
 			}
 		}
 	}
+	// CLTV / CSV look at the sequence of the input being verified, not of any other input
+	for _, lockOp := range []byte{0xb1, 0xb2} {
+		for _, mine := range []uint32{0xffffffff, 0xfffffffe, 5, 1 << 31} {
+			for _, other := range []uint32{0xffffffff, 5, 1 << 31} {
+				for _, idx := range []int{0, 1} {
+					sh := txShape{version: 2, lockTime: 10, sequence: mine, nIn: 2, idx: idx, nOut: 1, amount: 900}
+					b := buildSpend(r, wBare, cat([]byte{0x54, lockOp, 0x75, 0x51}), sh, consensusAll, nil)
+					b.sp.tx.TxIn[1-idx].Sequence = other
+					out = append(out, caseSpec{class: "gen:limit:locktime-other-input:bare", sp: b.finish(nil, nil)})
+				}
+			}
+		}
+	}
 	// CHECKMULTISIG key count 19 / 20 / 21 (PUBKEY_COUNT) and signature count nKeys / nKeys+1 (SIG_COUNT)
 	for _, nk := range []int{0, 1, 19, 20, 21} {
 		for _, ns := range []int{0, nk, nk + 1} {
@@ -619,7 +632,7 @@ func pickPlan(r *core.Rand, k keyT, tap bool) sigPlan {
 			p.variant = int(r.Pick(7, 8, 8, 11, 12, 13))
 		}
 	} else {
-		p.ht = byte(r.Pick(1, 1, 1, 2, 3, 0x81, 0x82, 0x83, 0, 4, 0x50, 0x84, 0xff))
+		p.ht = byte(r.Pick(1, 1, 1, 2, 3, 0x81, 0x82, 0x83, 0, 4, 0x50, 0x84, 0xff, 0x21, 0x41, 0x62, 0xc3, 0x61))
 		if r.Chance(2, 5) {
 			p.variant = int(r.Pick(1, 2, 3, 4, 5, 6, 7, 8, 8, 9, 10, 11, 12, 13))
 		}
